@@ -123,7 +123,7 @@ CHECKS = {
    category="exploration",
    technique="schedule generation: K compile+run jobs under a harness-owned interleaving (cooperative scheduler on a scheduling-point hook in front of every session-globals access; the plan is drawn from the tape, replayed and shrunk), plus free-running concurrency stress on K OS threads; each job compared with its solo result in a fresh process",
    text="Sets of 2-6 jobs (generated programs, shipped sources including macro programs that touch the process environment, sum-type programs with multi-constructor diagnostics, duplicates, near-duplicates, identifier shuffles and broken texts) are first run alone, each in a fresh process. Space `sched`: the jobs run on K threads of a fresh process of which exactly one runs at a time; hook H3 calls the harness at every session-globals access (about 14 000 per job) and the turn changes where the case's plan (4-50 (segment length, thread) pairs in five styles from single-access alternation to long runs, cyclic) says. Space `stress`: the jobs are started together behind a barrier on K OS threads, twice. Every job's artefacts (bytecode listing, WASM bytes, layouts, outputs, diagnostic messages) must equal its solo artefacts and no job may panic only when run concurrently.",
-   note="Owned interleavings exist only at the granularity of session-globals accesses; code between two accesses runs atomically under a plan, and the free-running space sees whatever the OS produces, so absence of a race is not established. A difference under a plan is reported when the same plan shows it twice (stress: 3 sightings); otherwise it is counted. A deadlock would show as a case hitting the 300 s limit, which is reported as inconclusive (exit 2), not as a violation.",
+   note="Owned interleavings exist only at the granularity of session-globals accesses; code between two accesses runs atomically under a plan, and the free-running space sees whatever the OS produces, so absence of a race is not established. A difference under a plan is reported when the same plan shows it twice (stress: 3 sightings); otherwise it is counted. A run of the jobs together that does not finish within 40x the time they took one after the other (at least 45 s), twice, is reported as a hang (deadlock or livelock).",
    design="2.C19"),
 }
 
